@@ -128,7 +128,8 @@ func run(c *runner.Ctx) {
 	lateNames(c)
 	samePrintingTypes(c)
 	vals := valueMenu()
-	callSubsets := [][]string{{}, {"phone"}, {"zz"}, {"phone", "zz"}}
+	// (a function given for the call under the name of a structural rule - required, exist - is resolved like any other)
+	callSubsets := [][]string{{}, {"phone"}, {"zz"}, {"phone", "zz"}, {"required"}, {"exist", "zz"}}
 	for _, tp := range typePairs {
 		c.Space(c.Mode + ":" + tp.name)
 		for _, os := range outerSets {
@@ -175,12 +176,25 @@ func run(c *runner.Ctx) {
 								regs := []func(){
 									func() {
 										if os.rm != nil {
-											vsx.SetRule(toRM(os.rm), reflect.New(tp.outer).Interface())
+											if order == 1 {
+												// the type named by a typed nil pointer
+												vsx.SetRule(toRM(os.rm), reflect.Zero(reflect.PtrTo(tp.outer)).Interface())
+											} else {
+												vsx.SetRule(toRM(os.rm), reflect.New(tp.outer).Interface())
+											}
 										}
 									},
 									func() {
 										if is.rm != nil {
-											vsx.SetRule(toRM(is.rm), reflect.New(tp.inner).Elem().Interface())
+											switch order {
+											case 1:
+												vsx.SetRule(toRM(is.rm), reflect.Zero(reflect.PtrTo(tp.inner)).Interface())
+											case 2:
+												// a pointer to a nil pointer
+												vsx.SetRule(toRM(is.rm), reflect.New(reflect.PtrTo(tp.inner)).Interface())
+											default:
+												vsx.SetRule(toRM(is.rm), reflect.New(tp.inner).Elem().Interface())
+											}
 										}
 									},
 									func() {
